@@ -464,7 +464,7 @@ def gen_l3_cases(tier, r):
     if tier == "quick":
         cases = [c for c in cases if c["name"] in QUICK_CORPUS]
     n0 = len(cases)
-    n = 2 if tier == "quick" else 260
+    n = 2 if tier == "quick" else 120
     i = 0
     while len(cases) < n0 + n:
         c = B.gen_case(r, i)
